@@ -135,6 +135,8 @@ package router
 //@   inline
 //@   nosweep
 
+//@ pred metaEventIds(e *wamp.Event, ms *subscription, pubID wamp.ID) = e != nil && e.Subscription == ms.id && e.Publication == pubID
+
 //@ pred metaEventFor(e *wamp.Event, ms *subscription, pubID wamp.ID, sendTopic bool, topic wamp.URI) = e != nil && e.Subscription == ms.id && e.Publication == pubID && e.Details != nil && (sendTopic ==> "topic" in e.Details && e.Details["topic"] == box(topic)) && (!sendTopic ==> !("topic" in e.Details))
 
 //@ func (b *broker) syncPubSubMeta
@@ -159,13 +161,13 @@ package router
 //@   requires brokerInv(b) && sub != nil
 //@   modifies ghost sendcount
 //@   callsite trySend : [meta-event-to-a-subscriber-other-than-the-causing-session] arg1 in metaSub.subscribers && arg1.ID != subSessID
-//@   callsite trySend : [meta-event-for-that-subscription] is(arg2, *wamp.Event) && metaEventFor(arg2.(*wamp.Event), metaSub, pubID, sendTopic, wamp.MetaEventSubOnCreate)
+//@   callsite trySend : [meta-event-for-that-subscription] is(arg2, *wamp.Event) && metaEventIds(arg2.(*wamp.Event), metaSub, pubID)
 
 //@ closure (b *broker) syncPubSubCreateMeta 1
 //@   inline
 //@   nosweep
 //@   loop range metaSub.subscribers
-//@     invariant [shared-event-is-for-this-subscription] event == nil || metaEventFor(event, metaSub, pubID, sendTopic, wamp.MetaEventSubOnCreate)
+//@     invariant [shared-event-is-for-this-subscription] event == nil || metaEventIds(event, metaSub, pubID)
 
 // ---------------------------------------------------------------------------
 // Broker: session index and ownership
